@@ -320,6 +320,8 @@ def execBody (w : World) (obProg : Nat) : Nat → Frame → List Int → List Ev
         | some old =>
           let evs := Ev.run P.name fe.nameStr old :: evs
           let vars := vars.set vi (codeOf P.name fe.nameStr)
+          -- programs with a second own variable (`private int w;`, the same name at several levels) store there too
+          let vars := if P.nvd ≥ 2 then vars.set (vi + 1) (codeOf P.name fe.nameStr + 5000) else vars
           execOps w obProg fuel fr fe.ops vars evs
 
 def execOps (w : World) (obProg : Nat) : Nat → Frame → List CallOp → List Int → List Ev → Run
